@@ -21,9 +21,10 @@ def run_pipeline(ctx, cases, chunk=60):
                 "Repo": C.REPO, "Templates": bool(c.get("Templates"))}
     outs = [None] * len(cases)
     conc = [k for k, c in enumerate(cases) if c.get("Concurrent") and not c.get("Isolate")]
-    if conc:
-        # all of them at the same time, each in a goroutine of its own, in one process
-        for k, o in zip(conc, C.dump("concurrent", [payload(cases[k]) for k in conc], timeout=1800)):
+    # all members of a batch at the same time, each in a goroutine of its own, in one process per batch
+    for batch in sorted({cases[k].get("Concurrent") for k in conc}, key=str):
+        idx = [k for k in conc if cases[k].get("Concurrent") == batch]
+        for k, o in zip(idx, C.dump("concurrent", [payload(cases[k]) for k in idx], timeout=1800)):
             outs[k] = o
     shared = [k for k, c in enumerate(cases) if not c.get("Isolate") and not c.get("Concurrent")]
     alone = [k for k, c in enumerate(cases) if c.get("Isolate")]
